@@ -610,8 +610,15 @@ func rtParseVerdict(a *aggregator, v *rtView) {
 			if b, ok := call.Type().Underlying().(*types.Basic); ok && b.Kind() == types.Bool {
 				// callee value must be an element of p.rules
 				if u, ok := call.Call.Value.(*ssa.UnOp); ok {
-					if ia, ok := u.X.(*ssa.IndexAddr); ok && v.isRecvField(ia.X, "rules") {
-						matches = call
+					if ia, ok := u.X.(*ssa.IndexAddr); ok {
+						// the table is an array field (indexed in place) or a slice field (loaded first)
+						x := ia.X
+						if ld, ok := x.(*ssa.UnOp); ok && ld.Op == token.MUL {
+							x = ld.X
+						}
+						if v.isRecvField(x, "rules") {
+							matches = call
+						}
 					}
 				}
 			}
